@@ -480,3 +480,16 @@ func (c *Ctx) flagOwners() {
 		c.bad("flag-owners", token.NoPos, "only %d registrations of protection switches found", n)
 	}
 }
+
+// constInt64 is Const.Int64 without its panic: the integer value of an integer (or integral
+// float) constant; for any other constant (a string, a bool, nil) a value no rule compares with.
+func constInt64(k *ssa.Const) int64 {
+	if k == nil || k.Value == nil {
+		return 0
+	}
+	switch k.Value.Kind() {
+	case constant.Int, constant.Float:
+		return k.Int64()
+	}
+	return -0x7ead_beef_0bad_c0de
+}
